@@ -1,12 +1,15 @@
 CONSTANTS
   Dev = {}
-  RD = 1
-  MaxRetries = 1
+  TickMs = 10000
+  Confs = {}
   MaxDgrams = 0
   Faults = {}
-  MRT = 2
   MReqs = {1}
   MaxConn = 2
+  MsConfs <- GMsConfs
+  XConfs <- GXConfs
+  OpNames <- AllOps
+  TcOnly = FALSE
   Mode = "dgst"
   MaxOps = 9
   PathMode = TRUE
